@@ -56,7 +56,8 @@ class UDPListener:
 
         available = MAX_MESSAGE_LEN - len(self._getMessage(2**16-1))
         if available < 0:
-            desc_length = len(self.description.encode('utf-8'))
+            # length of the description as it appears in the message (with JSON escapes)
+            desc_length = len(json.dumps(self.description, ensure_ascii=False).encode('utf-8')) - 2
             if available + desc_length < 0:
                 self.log.warn('Equipment id and firmware name exceed 430 byte '
                               'limit, not answering to udp discovery')
